@@ -1,0 +1,5 @@
+//go:build !verif
+
+package ds
+
+func verifYield(string) {}
